@@ -11,7 +11,7 @@
 
    The action chain is [A0: filter, A1: join-like]: an event's class decides what each action
    returns (P pass, D discard at A0, B break at A0, H hold at A1, C collapse into a held run at A1,
-   R refused at admission, N not matched by A1's selector: A1 is skipped unless it is busy with a run, S split at A0: Spawn produces KidsPer child events that run through A1 and to the output
+   R refused at admission, X refused by the input's own PassEvent after the pool handed out an event, N not matched by A1's selector: A1 is skipped unless it is busy with a run, S split at A0: Spawn produces KidsPer child events that run through A1 and to the output
    inside the parent's Do call, then the parent breaks out and follows them to the output as a child-parent event,
    which no send function sees and whose Commit is the one the input is notified of).  Mechanism switches M_* (all TRUE = the code as it is) let TLC produce
    the shortest schedule that distinguishes an implementation with the mechanism from one without;
@@ -34,6 +34,7 @@ CONSTANTS
   M_DQEmptiesBatch,        \* after the dead-queue hand-over the main batch is emptied
   M_CommitMax,             \* stream.commit keeps the maximum
   M_BusyTakesAll,          \* an action that holds a run receives EVERY event of the stream, also one its selector does not match
+  M_RefusedBackOnce,       \* an event refused by the input's PassEvent is returned to the pool exactly once
   M_TimerFlushesAny        \* the batch heartbeat seals ANY non-empty open batch, also one that holds only split parents
 
 Procs == 1..NProcs
@@ -146,6 +147,11 @@ ReadIn ==
      IN IF lines[e].cls = "R"
           THEN /\ obs' = OIn(obs, e, lines[e].src, lines[e].stream, OffOf(e), e, FALSE)
                /\ UNCHANGED <<inUse, st, seqOf, charged>>
+          ELSE IF lines[e].cls = "X"                                  \* the input's own PassEvent refuses: the pooled event goes back, once
+          THEN /\ inUse < Capacity
+               /\ inUse' = IF M_RefusedBackOnce THEN inUse ELSE inUse - 1
+               /\ obs' = OInRet(OOwn(OInCall(obs, e, lines[e].src, lines[e].stream, OffOf(e), e), e, e), e, FALSE)
+               /\ UNCHANGED <<st, seqOf, charged>>
           ELSE /\ inUse < Capacity                                    \* pool.get blocks at capacity
                /\ inUse' = inUse + 1
                /\ seqOf' = [seqOf EXCEPT ![e] = s.cur + 1]
